@@ -50,8 +50,7 @@ def classify_cob(M, e, fmax):
     N = 1 << e
     a, b, c, d = [x % N for x in M]
     cls = []
-    if e < fmax and 0 in (a, b, c, d, (a - b) % N, (c - d) % N):
-        cls.append(K_APP_ZERO)
+    # (zero scalars at e < POWER_OF_2 were a finding — K_APP_ZERO — fixed by 76cbdb3: no longer a degenerate class)
     c1, c2 = (a, c), (b, d)
     if col_order_log(c1, e) <= 2 or col_order_log(c2, e) <= 2:
         cls.append(K_COB_LOW)
@@ -120,6 +119,16 @@ def gen_mats(rng, e, fmax):
         M = tuple(rng.below(N) for _ in range(4))
         if (M[0] * M[3] - M[1] * M[2]) % 2 == 1 and not classify_cob(M, e, fmax):
             out.append((M, "invertible"))
+    # consecutive scalars of differing limb counts in the reused digit buffers of matrix_application_even_basis
+    if e > 70:
+        big = lambda: (1 << (64 + rng.below(e - 64))) | rng.below(1 << 64) | 1
+        small = lambda: 2 + rng.below(1 << 40)
+        c = big()
+        for M, tag in (((c, 0, 0, c), "limbs:scalar-endomorphism"), ((big(), small(), small() | 1, big() ^ 1), "limbs:big-small"),
+                       ((small() | 1, big(), big() ^ 1, small()), "limbs:small-big"), ((big(), big(), small() | 1, small() & ~1), "limbs:rows")):
+            M = tuple(x % N for x in M)
+            if not classify_cob(M, e, fmax):
+                out.append((M, tag))
     tries = 0
     while len([m for m in out if m[1] == "singular"]) < 3 and tries < 200:
         tries += 1
@@ -231,6 +240,10 @@ def run_level(ctx, lvl, ncurves, have_driver):
             bar = ws.index("|")
             r = [sint(x) % N for x in ws[:4]]
             P1, Q1, D1 = pt(ws[bar + 1:bar + 3]), pt(ws[bar + 3:bar + 5]), pt(ws[bar + 5:bar + 7])
+            states = []
+            for seg in res.split(" | ")[2:]:
+                sw = seg.split()
+                states.append((sw[0], sw[1] == "1", [sint(x) % N for x in sw[2:6]]))
             cls = classify_cob(M, e, fmax)
             hist[meta["tag"]] = hist.get(meta["tag"], 0) + 1
             ctx.case("L%d:%s:e=%d:cob:%s:%x" % (lvl, curop[:24], e, meta["tag"], M[0]))
@@ -247,6 +260,18 @@ def run_level(ctx, lvl, ncurves, have_driver):
                 else:
                     ctx.violation("c11:L%d:matrix_application-wrong-point:%s" % (lvl, meta["tag"]), "matrix_application_even_basis does not return (aP+cQ, bP+dQ, difference)",
                                   rep(dict(matrix=["%x" % x for x in M])))
+            if app_ok and cob_ok and not [k for k in cls if k != K_APP_ZERO]:
+                # cache-state independence: same round trip with the curve struct in the other A24-cache states
+                for (st, sameapp, rs) in states:
+                    ctx.case("L%d:cache-state:%s" % (lvl, st))
+                    if not sameapp or not (rs == M or rs == [(-x) % N for x in M]):
+                        ctx.violation("c11:L%d:result-depends-on-A24-cache-state:%s" % (lvl, st),
+                                      "matrix_application / change_of_basis_matrix_two give a different (wrong) result when the caller's ec_curve_t has another state of its cached A24 "
+                                      "(s1 fresh init + A,C; s2 rescaled (A:C); s3 flag clear with stale A24; s4 the constant CURVE_E0)",
+                                      rep(dict(matrix=["%x" % x for x in M], state=st, got=["%x" % x for x in rs], same_points=sameapp)))
+                        break
+            if not app_ok:
+                pass
             elif not cob_ok:
                 rest = [k for k in cls if k != K_APP_ZERO]
                 if rest:
